@@ -37,6 +37,7 @@ ASSUMPTIONS = [
     "a front-end crash or error exit is an outcome and is compared like any other",
 ]
 PROBES = ["nonempty_tables", "hashseed_varied", "dirent_varied", "heap_varied", "ws_sibling", "ws_otherfs", "ws_relative", "ws_symlink",
+          "ws_symlink_inner", "ws_named_externs", "ws_named_src", "ws_named_default",
           "history_same_project", "history_other_project", "history_crashed_run", "multi_file_project", "corpus_project",
           "generated_project", "sub_run", "sub_semantic", "taint_phase_ran"]
 # the same check again, smaller, in interpreters started with assertions stripped (python -O / PYTHONOPTIMIZE=1)
@@ -115,7 +116,10 @@ def _gen_variant(rng, baseline):
     if "heap" in dims:
         v["heap_pad"] = rng.choice([1, 17, 1000, 4099])
     if "ws" in dims:
-        v["ws"] = rng.choice(["sibling", "otherfs", "relative", "symlink"])
+        v["ws"] = rng.choice(["sibling", "otherfs", "relative", "symlink", "symlink_inner", "named_externs", "named_src", "named_default"])
+        if v["ws"] == "symlink_inner":
+            # the workspace directory itself is a link (results kept elsewhere) and another project was analysed into it before
+            v["history"] = [{"proj": "B"}] + ([{"proj": "A"}] if rng.random() < 0.3 else [])
     if "history" in dims:
         v["history"] = [rng.choice([{"proj": "A"}, {"proj": "A"}, {"proj": "B"}, {"proj": "B", "crash_at": rng.choice([3, 15, 40, 90])}])
                         for _ in range(rng.choice([1, 1, 2]))]
@@ -241,6 +245,15 @@ def execute(trace):
                     w_arg = os.path.join(B, "ws_fallback")
             elif wsk == "relative":
                 w_arg = "ws_rel"
+            elif wsk == "symlink_inner":
+                w_arg = os.path.join(B, "ws_inner")
+                os.makedirs(w_arg, exist_ok=True)
+                os.makedirs(os.path.join(B, "ws_inner_target"), exist_ok=True)
+                if not os.path.lexists(os.path.join(w_arg, "lian_workspace")):
+                    os.symlink(os.path.join(B, "ws_inner_target"), os.path.join(w_arg, "lian_workspace"))
+            elif wsk.startswith("named_"):
+                # a location whose path contains a name lian itself uses for something
+                w_arg = os.path.join(B, {"named_externs": "externs", "named_src": "src", "named_default": "old_lian_workspace_runs"}[wsk], "ws")
             else:
                 real = os.path.join(B, "ws_real_target")
                 os.makedirs(real, exist_ok=True)
@@ -249,12 +262,20 @@ def execute(trace):
                     os.symlink(real, link)
                 w_arg = link
             w_abs = os.path.realpath(os.path.join(cwd, w_arg))
-            W = os.path.join(w_abs, "lian_workspace")
-            shutil.rmtree(W, ignore_errors=True)
+            appended = "lian_workspace" not in w_arg      # the documented rule: the default name is appended unless the value contains it
+            W = os.path.join(w_abs, "lian_workspace") if appended else w_abs
+            if os.path.islink(W):
+                for n_ in os.listdir(W):      # keep the link, empty what it points to
+                    p_ = os.path.join(W, n_)
+                    shutil.rmtree(p_, ignore_errors=True) if os.path.isdir(p_) and not os.path.islink(p_) else os.remove(p_)
+                W_real = os.path.realpath(W)
+            else:
+                shutil.rmtree(W, ignore_errors=True)
+                W_real = W
             # the workspace path as lian sees it (not resolved, possibly relative) and as it really is
-            seen_abs = os.path.join(os.path.abspath(os.path.join(cwd, w_arg)), "lian_workspace")
-            seen_arg = os.path.join(w_arg, "lian_workspace")
-            masks = sorted({W: "<W>", seen_abs: "<W>", w_abs: "<WP>", os.path.abspath(os.path.join(cwd, w_arg)): "<WP>"}.items(),
+            seen_abs = os.path.join(os.path.abspath(os.path.join(cwd, w_arg)), "lian_workspace") if appended else os.path.abspath(os.path.join(cwd, w_arg))
+            seen_arg = os.path.join(w_arg, "lian_workspace") if appended else w_arg
+            masks = sorted({W: "<W>", W_real: "<W>", seen_abs: "<W>", w_abs: "<WP>", os.path.abspath(os.path.join(cwd, w_arg)): "<WP>"}.items(),
                            key=lambda kv: -len(kv[0]))
             masks = [list(m) for m in masks]
             if not os.path.isabs(w_arg):
